@@ -35,6 +35,15 @@ def dataset():
             k = t * ns + s
             v = (20.0 + 3 * k) / (1 + (i - 1 - k % 2) ** 2 + np.minimum((j - k) % nd, (k - j) % nd) ** 2) + (6.0 + k) / (1 + (i - 3) ** 2 + np.minimum((j - k - 2) % nd, (k + 2 - j) % nd) ** 2)
             specs.append(np.round(v * 32) / 32 + (i * nd + j) / 2048.0)
+    # two spectra holding two single-bin swells (different frequency rows, directions 90 degrees apart) whose array-level Hs differ
+    # only in the 10th digit - a decision float32 cannot resolve - once with the larger one first and once second in label order
+    eps = 2.0 ** -33
+    w1, w3 = FREQ[2] - FREQ[0], FREQ[4] - FREQ[2]
+    for slot, (ea, eb) in ((2, (0.0, eps)), (5, (eps, 0.0))):
+        v = np.zeros((nf, nd))   # zero background: the basins hold exactly one non-zero bin each
+        v[1, 0] = 8.0 * (1 + ea)
+        v[3, 1] = 8.0 * (w1 / w3) * (1 + eb)
+        specs[slot] = v
     data = np.array(specs).reshape(nt, ns, nf, nd)
     c = {"time": (np.datetime64("2022-01-01") + np.arange(nt) * np.timedelta64(3, "h")).astype("datetime64[ns]"), "site": np.arange(ns) + 1,
          "freq": FREQ.copy(), "dir": DIRS.copy()}
@@ -61,6 +70,8 @@ def operations(tier):
     ops["scale_by_hs(hs window)"] = lambda da, aux: da.spec.scale_by_hs("0.5*hs+1", hs_min=1.0)
     ops["ptm1"] = lambda da, aux: da.spec.partition.ptm1(aux["wspd"], aux["wdir"], aux["dpt"], swells=2)
     ops["ptm2"] = lambda da, aux: da.spec.partition.ptm2(aux["wspd"], aux["wdir"], aux["dpt"], swells=2)
+    ops["ptm1(wind dims transposed)"] = lambda da, aux: da.spec.partition.ptm1(aux["wspd"].transpose(), aux["wdir"].transpose(), aux["dpt"].transpose(), swells=2)
+    ops["ptm2(wind dims transposed)"] = lambda da, aux: da.spec.partition.ptm2(aux["wspd"].transpose(), aux["wdir"].transpose(), aux["dpt"].transpose(), swells=2)
     ops["ptm3"] = lambda da, aux: da.spec.partition.ptm3(parts=3)
     ops["ptm3(smooth)"] = lambda da, aux: da.spec.partition.ptm3(parts=2, smooth=True)
     ops["ptm4"] = lambda da, aux: da.spec.partition.ptm4(aux["wspd"], aux["wdir"], aux["dpt"])
